@@ -743,6 +743,8 @@ def diff_scenario(b):
             mode = m.get('l%smode' % c, 0o644)
             e = {'path': p, 'kind': lk, 'content_len': max(0, m.get('l%ssize' % c, 1)) if lk == 'File' else 0, 'content_class': ord(c),
                  'mtime': [m.get('l%ssec' % c, 0), m.get('l%sns' % c, 0)], 'mode': mode, 'target': 't%d' % m.get('l%stgt' % c, 1)}
+            if pr == 'B' and not m.get('l%suser' % c, 1):
+                e['user_unnamed'] = True      # the model's half-named owner: a user id without a name, group root
             live.append(e)
     # the live root must look unchanged: same mtime/mode as stored (set last by make_tree)
     live = [{'path': '/', 'kind': 'Dir', 'mtime': [5, 0], 'mode': 0o755}] + live
